@@ -211,8 +211,8 @@ func init() {
 						if v == 2 && r.Tier == "quick" && len(prefix) > 2 {
 							continue // quick: v2 for patterns up to length 2
 						}
-						if r.Tier == "quick" && len(prefix) > 2 && strings.Contains(prefix, "M") {
-							continue // quick: malformed fragments in patterns up to length 2
+						if r.Tier == "quick" && len(prefix) > 2 && strings.ContainsAny(prefix, "MFRg") {
+							continue // quick: the stateless rejections (malformed fragment, forgeries with fixed key ids, garbage) in patterns up to length 2
 						}
 						if r.Tier == "quick" && len(prefix) > 2 && strings.Contains(prefix, "E") && !strings.ContainsAny(prefix, "ra") {
 							continue // quick: an error report matters through what is resent later (after a refresh) or was sent before
